@@ -4,7 +4,7 @@ use serde_json::{json, Value};
 
 // The abstract names 1, 2, 3, ... of the specification are DISTINCT atoms; they are concretised by strings that are
 // easy to confuse: equal up to letter case, one a proper prefix of the other, composed vs decomposed accents.
-const POOL: &[&str] = &["?", "a", "A", "ab", "a.js", "A.js", "ü", "u\u{308}", "g.map", "h"];
+const POOL: &[&str] = &["?", "a", "A", "ab", "a.js", "A.js", "ü", "u\u{308}", "g.map", "h", "c#", "q?x", "50%", "a b", "k=v&w", "x+y", "~", "..."];
 
 fn path_string(comps: &Value, abs: bool, sep: i64) -> String {
     // sep 0: '/', 1: '\\', 2: both kinds alternating within one path, 3: alternating the other way
@@ -43,7 +43,7 @@ pub fn run(case: &Value, em: &mut Emitter) {
 }
 
 pub fn gen(rng: &mut Rng, _size: usize) -> Value {
-    let n = 2 + rng.below(8) as usize; // pool of names used in this case: small, so prefixes are shared
+    let n = 2 + rng.below(16) as usize; // pool of names used in this case: small, so prefixes are shared
     let long = rng.chance(1, 15);
     let mut path = |rng: &mut Rng| -> Vec<u64> { (0..1 + rng.below(if long { 90 } else { 6 })).map(|_| 1 + rng.below(n as u64)).collect() };
     let base = path(rng);
